@@ -430,7 +430,75 @@ def suite_damage(pid, tier, seed):
                 diffs=diffs[:5], failures=failures, traces=nd, stats=dict(cases=len(cases), damages=nd, kinds=kinds, diffs=len(diffs)))
 
 
-SUITES = dict(seq=suite_seq, crash=suite_crash, fault=suite_fault, codec=suite_codec, range=suite_range, damage=suite_damage)
+
+# ------------------------------------------------------------------------------- settings gate (C19)
+def suite_settings(pid, tier, seed):
+    spec = PROPS[pid]
+    n = 60 if tier == "quick" else 1500
+    rng = random.Random(seed * 1000003 + 53)
+    cases = [gen.settings_case(f"g{i}", rng) for i in range(n)]
+    real, model = both_sides(f"settings-{tier}-{seed}-{n}", cases, "plain")
+    R, M = run.by_case(real), run.by_case(model)
+    diffs, failures, distinct = [], [], set()
+    for c in cases:
+        name = case_name(c)
+        rl, ml = R.get(name, []), M.get(name, [])
+        d = run.first_diff(filt(rl, {"ret", "ret_open", "dir"}), filt(ml, {"ret", "ret_open", "dir"}))
+        if d:
+            diffs.append(f"K3 settings-gate correspondence differs in case {name}: impl `{d[1][:160]}` vs model `{d[2][:160]}`")
+        for tag, msg in oracle.settings_oracle(c, rl) + [(t, m) for t, m in oracle.seq_oracle(c, rl) if t in ("reads", "nofail")]:
+            if tag in spec["tags"] or tag == "nofail":
+                failures.append(mk_failure("settings", "plain", c, name, tag, msg))
+        distinct.add("st:" + case_hash(c))
+    # pre-created directory tree: real library only (the list-based model is quadratic in 65,536 directories);
+    # the same history with and without pre-creation, and a reopen with the opposite configuration
+    npre = 2 if tier == "quick" else 8
+    pre_cases = []
+    for i in range(npre):
+        r2 = random.Random(seed * 7919 + i)
+        base = gen.seq_case(f"p{i}", r2, length=8, obs_every=False, big=0.0, kt="bytes", n=3, sync=1)
+        pre_cases.append(base)
+        pre_cases.append(base.replace(f"case p{i}", f"case p{i}pre", 1).replace("sync=1", "sync=1 pre=1", 1).replace("\nclose\nopen\n", "\nclose\nopen pre=0\n"))
+    def go():
+        return dict(real=run.run_sharded(pre_cases, "plain", "real"))
+    pr = run.by_case(cached(f"settings-pre-{tier}-{seed}-{npre}", go)["real"])
+    for i in range(npre):
+        a = [l.split(" ", 2)[2] for l in pr.get(f"p{i}", []) if l.startswith("R ")]
+        b = [l.split(" ", 2)[2].replace(" pre=0", "") for l in pr.get(f"p{i}pre", []) if l.startswith("R ")]
+        if a != b or not a:
+            dd = next(((x, y) for x, y in zip(a, b) if x != y), ("<length>", "<length>"))
+            failures.append(mk_failure("settings", "plain", pre_cases[2 * i + 1], f"p{i}pre", "precreate_observable",
+                                       f"pre-created directory tree changes behaviour: without `{dd[0][:150]}` with `{dd[1][:150]}`"))
+        distinct.add("stp:" + str(i))
+    failures = [f for f in failures if f["tag"] in spec["tags"] or f["tag"] == "nofail"]
+    return dict(evaluations=len(cases) + len(pre_cases), distinct=distinct, samples=[dict(suite="settings", case=cases[0].splitlines())],
+                diffs=diffs[:5], failures=failures, traces=len(cases), stats=dict(cases=len(cases), precreate_pairs=npre, diffs=len(diffs)))
+
+
+
+# ------------------------------------------------------------------------------- sizes (C18)
+def suite_sizes(pid, tier, seed):
+    spec = PROPS[pid]
+    rng = random.Random(seed * 1000003 + 59)
+    cases = gen.sizes_cases(rng, tier == "thorough")
+    real, model = both_sides(f"sizes-{tier}-{seed}", cases, "plain")
+    R, M = run.by_case(real), run.by_case(model)
+    diffs, failures, distinct = [], [], set()
+    for c in cases:
+        name = case_name(c)
+        rl, ml = R.get(name, []), M.get(name, [])
+        d = run.first_diff(filt(rl, {"ret", "state", "dir"}), filt(ml, {"ret", "state", "dir"}))
+        if d:
+            diffs.append(f"K2 size-boundary correspondence differs in case {name}: impl `{d[1][:160]}` vs model `{d[2][:160]}`")
+        for tag, msg in oracle.seq_oracle(c, rl):
+            if tag in spec["tags"] or tag == "nofail":
+                failures.append(mk_failure("sizes", "plain", c, name, tag, msg[:600]))
+        distinct.add("sz:" + case_hash(c))
+    return dict(evaluations=sum(c.count("\nput ") for c in cases), distinct=distinct, samples=[dict(suite="sizes", case=cases[3].splitlines())],
+                diffs=diffs[:5], failures=failures, traces=len(cases), stats=dict(cases=len(cases), diffs=len(diffs)))
+
+
+SUITES = dict(seq=suite_seq, crash=suite_crash, fault=suite_fault, codec=suite_codec, range=suite_range, damage=suite_damage, settings=suite_settings, sizes=suite_sizes)
 
 # ------------------------------------------------------------------------------- known findings
 KNOWN_CLASSES = {}
